@@ -93,11 +93,14 @@ class TornadoEventLoop(EventLoop):
         """
         Call all the registered idle callbacks.
         """
-        try:
-            for callback in self._idle_callbacks.values():
+        self._idle_asyncio_handle = None
+
+        def call_idle_callbacks() -> None:
+            for callback in tuple(self._idle_callbacks.values()):
                 callback()
-        finally:
-            self._idle_asyncio_handle = None
+
+        # an idle callback (e.g. the redraw) that raises must end run() like any other callback
+        self.handle_exit(call_idle_callbacks)()
 
     def run_in_executor(
         self,
